@@ -248,10 +248,11 @@ def run(tier, seed, replay=None):
         try:
             w.create_circuit("o", goal)
             w.deliver(w.net.inflight[0].seq)
-            w.mangle_answer(w.net.inflight[0].seq, "cands")
+            w.mangle_answer(w.net.inflight[0].seq, "cands" if i == 0 else "candkey")
             w.deliver(w.net.inflight[0].seq)
             w.run_until(25000)
-            tr = {"events": w.events, "topology": "line4", "seed": seed, "profile": "cands-then-retry g%d" % goal}
+            tr = {"events": w.events, "topology": "line4", "seed": seed,
+                  "profile": "%s-then-retry g%d" % ("cands" if i == 0 else "candkey", goal)}
             K.check_escapes(ctx, w, tr, "cands-then-retry")
             cr.append(tr)
             hdr_c = w.header()
